@@ -28,6 +28,28 @@ def norm(node: ast.AST | str, limit: int = 140) -> str:
     return txt if len(txt) <= limit else txt[: limit - 3] + "..."
 
 
+def framework_hook_functions(repo: Repo) -> dict[str, FuncInfo]:
+    """Methods of the package's classes that extend a marko class (elements, parser, renderer, Markdown): marko calls them
+    during parsing / rendering - match(), parse(), __init__ of the custom elements - although no code of the package does."""
+    out: dict[str, FuncInfo] = {}
+    for ci in repo.classes.values():
+        stack, seen, ext = [ci], set(), False
+        while stack:
+            c = stack.pop()
+            if c.qual in seen:
+                continue
+            seen.add(c.qual)
+            for b in repo.class_bases(c):
+                if isinstance(b, ClassInfo):
+                    stack.append(b)
+                elif isinstance(b, str) and b.split(".")[0] == "marko":
+                    ext = True
+        if ext:
+            for m in ci.methods.values():
+                out[m.qual] = m
+    return out
+
+
 def reachable_functions(prog: Program, roots: list[FuncInfo], include_nested: bool = True) -> dict[str, FuncInfo]:
     """Repo functions reachable from the roots through resolved calls, function-valued arguments,
     self-dispatch (render_*), nested definitions and class constructors."""
